@@ -7,7 +7,7 @@ from efootprint.abstract_modeling_classes.modeling_update import ModelingUpdate
 from harness import model as M, values as V, edits as E, snap as S
 from harness.common import traffic_syms, gt_sets
 from harness.c01 import _sym_for, collect_slots, resolve, num
-from harness.c05 import changes_of, UTC0, DATES, SCRIPTS_T1, SCRIPTS_T9, SCRIPTS_T5, L, LA
+from harness.c05 import changes_of, UTC0, DATES, SCRIPTS_T1, SCRIPTS_T9, SCRIPTS_T9_CHAINED, SCRIPTS_T5, L, LA
 
 PROPERTY = "C06"
 LEVEL = "model_checking"
@@ -95,6 +95,10 @@ def h_sim_equal(ctx, skeleton, script, date, n=3, args=None, tz=None, date_tz=No
     for a, b in zip(vtr, rv):
         oname, attr = a.modeling_obj_container.name, a.attr_name_in_mod_obj_container
         recomputed_attrs.add((oname, attr))
+        if reference == "fresh" and oname != "system" and not U[oname].systems:
+            # the changes take this object out of the system: a model built from scratch does not compute it at all, so the
+            # from-scratch reference says nothing about it (the live-update reference of the other instances does)
+            continue
         ref = getattr(U[oname], attr)
         for (k, sim_val) in _entries(b):
             ref_val = dict(_entries(ref)).get(k) if isinstance(ref, ExplainableObjectDict) else ref
@@ -114,6 +118,8 @@ def h_sim_equal(ctx, skeleton, script, date, n=3, args=None, tz=None, date_tz=No
         for name, o in objs.items():
             if name not in U or not hasattr(o, "calculated_attributes"):
                 continue
+            if reference == "fresh" and name != "system" and not (U[name].systems and o.systems):
+                continue        # outside the system before or after the changes: not computed by a build from scratch
             for attr in o.calculated_attributes:
                 if (name, attr) in recomputed_attrs:
                     continue
@@ -128,7 +134,8 @@ def h_sim_equal(ctx, skeleton, script, date, n=3, args=None, tz=None, date_tz=No
              if not isinstance(a, ExplainableObjectDict)]
     sim.set_updated_values()
     if date == "first":
-        names = {n for n, o in objs.items() if n in U and hasattr(o, "calculated_attributes")}
+        names = {n for n, o in objs.items() if n in U and hasattr(o, "calculated_attributes")
+                 and not (reference == "fresh" and n != "system" and not U[n].systems)}
         V.compare_systems(ctx, objs, U, "after set_updated_values(): model = really updated model", names=names)
     else:
         for oname, attr, a, b in slots:
@@ -166,6 +173,12 @@ def plan(tier, seed):
         p.append(("sim_equal", dict(skeleton="T9", script=SCRIPTS_T9[0], date=d, n=2)))
     for sc in SCRIPTS_T9:
         p.append(("sim_equal", dict(skeleton="T9", script=sc, date="first", n=2)))
+    # (reference built from scratch: a grouped real update would go through the same chain computation as the simulation)
+    for sc in SCRIPTS_T9_CHAINED:
+        p.append(("sim_equal", dict(skeleton="T9", script=sc, date="first", n=2, reference="fresh")))
+    for sc in (SCRIPTS_T9[7], SCRIPTS_T9[10], SCRIPTS_T9[12]):
+        p.append(("sim_equal", dict(skeleton="T9", script=sc, date="first", n=2, reference="fresh")))
+    p.append(("sim_equal", dict(skeleton="T9", script=SCRIPTS_T9_CHAINED[0], date="interior", n=3)))
     for sc in SCRIPTS_T5:
         p.append(("sim_equal", dict(skeleton="T5", script=sc, date="first", n=2)))
     # usage pattern itself in the recomputation chain (link/list changes on it), zones east and west of UTC
